@@ -13,7 +13,7 @@ use jrsonnet_rowan_parser::{
 	nodes::{
 		Arg, ArgsDesc, Assertion, BinaryOperator, Bind, CompSpec, Destruct, DestructArrayPart,
 		DestructRest, Expr, ExprArray, ExprBase, FieldName, ForSpec, IfSpec, ImportKind, Literal,
-		Member, Name, Number, ObjBody, ObjLocal, ParamsDesc, SliceDesc, SourceFile, Stmt, Suffix,
+		Member, Name, Number, ObjBody, ObjLocal, Param, ParamsDesc, SliceDesc, SourceFile, Stmt, Suffix,
 		Text, TextKind, UnaryOperator, Visibility,
 	},
 	AstNode, AstToken, SyntaxElement, SyntaxToken, T,
@@ -425,14 +425,25 @@ impl Printable for Assertion {
 
 impl Printable for ParamsDesc {
 	fn print(&self, out: &mut PrintItems) {
+		let (params, end_comments) = children_between::<Param>(
+			self.syntax().clone(),
+			self.l_paren_token().map(Into::into).as_ref(),
+			self.r_paren_token().map(Into::into).as_ref(),
+			None,
+		);
 		p!(out, str("(") >i nl);
-		for param in self.params() {
+		for child in params {
+			format_comments(&child.before_trivia, CommentLocation::AboveItem, out);
+			let param = child.value;
 			p!(out, {param.destruct()} ct(n(&param.destruct())));
 			if param.assign_token().is_some() || param.expr().is_some() {
 				p!(out, sp str("=") sp cl(n(&param.expr())) {param.expr()});
 			}
-			p!(out, str(",") nl);
+			p!(out, str(","));
+			format_comments(&child.inline_trivia, CommentLocation::ItemInline, out);
+			p!(out, nl);
 		}
+		format_comments(&end_comments.trivia, CommentLocation::EndOfItems, out);
 		p!(out, <i str(")"));
 	}
 }
@@ -511,7 +522,7 @@ impl Printable for SliceDesc {
 		if self.step().is_some() {
 			p!(out, str(":") co(second_colon) {self.step().map(|e|e.expr())} ct(n(&self.step())));
 		} else {
-			p!(out, ct(second_colon));
+			p!(out, co(second_colon));
 		}
 		p!(out, str("]"));
 	}
@@ -736,7 +747,7 @@ impl Printable for CompSpec {
 }
 impl Printable for Expr {
 	fn print(&self, out: &mut PrintItems) {
-		let (stmts, _ending) = children_between::<Stmt>(
+		let (stmts, ending) = children_between::<Stmt>(
 			self.syntax().clone(),
 			None,
 			self.expr_base()
@@ -748,10 +759,14 @@ impl Printable for Expr {
 			None,
 		);
 		for stmt in stmts {
+			format_comments(&stmt.before_trivia, CommentLocation::AboveItem, out);
 			p!(out, { stmt.value });
+			format_comments(&stmt.inline_trivia, CommentLocation::ItemInline, out);
+			p!(out, nl);
 		}
+		format_comments(&ending.trivia, CommentLocation::AboveItem, out);
 		p!(out, { self.expr_base() });
-		let (suffixes, _ending) = children_between::<Suffix>(
+		let (suffixes, ending) = children_between::<Suffix>(
 			self.syntax().clone(),
 			self.expr_base()
 				.as_ref()
@@ -763,8 +778,11 @@ impl Printable for Expr {
 			None,
 		);
 		for suffix in suffixes {
+			format_comments(&suffix.before_trivia, CommentLocation::ItemInline, out);
 			p!(out, { suffix.value });
+			format_comments(&suffix.inline_trivia, CommentLocation::ItemInline, out);
 		}
+		format_comments(&ending.trivia, CommentLocation::ItemInline, out);
 	}
 }
 impl Printable for Suffix {
@@ -808,7 +826,8 @@ impl Printable for Stmt {
 					let bind = &binds[0];
 					format_comments(&bind.before_trivia, CommentLocation::AboveItem, out);
 					p!(out, str("local ") {bind.value});
-				// TODO: keep end_comments, child.inline_trivia somehow, force multiple locals formatting in case of presence?
+					format_comments(&bind.inline_trivia, CommentLocation::ItemInline, out);
+					format_comments(&end_comments.trivia, CommentLocation::ItemInline, out);
 				} else {
 					p!(out,str("local") >i nl);
 					let mut binds = binds.into_iter().peekable();
@@ -831,10 +850,10 @@ impl Printable for Stmt {
 					format_comments(&end_comments.trivia, CommentLocation::EndOfItems, out);
 					p!(out,<i);
 				}
-				p!(out,str(";") nl);
+				p!(out, str(";"));
 			}
 			Self::StmtAssert(a) => {
-				p!(out, {a.assertion()} ct(n(&a.assertion())) str(";") nl);
+				p!(out, {a.assertion()} ct(n(&a.assertion())) str(";"));
 			}
 		}
 	}
